@@ -77,11 +77,11 @@ open C13D in
 def dispatchC13 : List Str → Option (List Str)
   | cmd :: args =>
     if cmd == "c13.all".toList then
-      -- c13.all <order> ent*  : the whole GraphManager run
+      -- c13.all <variant: asis|fixed> <order> ent*  : the whole GraphManager run
       match args with
-      | order :: ents =>
+      | variant :: order :: ents =>
         let tab := ents.map parseEnt
-        let r := graphAll tab (natList order)
+        let r := graphAll (variant == "fixed".toList) tab (natList order)
         if !r.ok then some ["fuel".toList]
         else
           some (["ok".toList,
@@ -110,7 +110,7 @@ def dispatchC13 : List Str → Option (List Str)
         | none => some ["fuel".toList]
         | some nd =>
           let c := classOf cls
-          let cfg : Cfg := { succ := succOf tab nd c, nested := c.nested, filterAdded := c.filterAdded,
+          let cfg : Cfg := { succ := succOf tab nd c, nested := c.nested, filterAdded := c.filterAdded false,
                              maxNesting := natOf mn, maxNodes := natOf mx }
           some ["ok".toList, showGraph cls (runGraph cfg rs)]
       | _ => some ["bad-request".toList]
